@@ -206,6 +206,11 @@ func TestC14(t *testing.T) { runPropJ(t, "C14", genC14, checkC14, true) }
 func TestC14Enum(t *testing.T) {
 	var cases []c14Case
 	if mode == "big" {
+		// a 10^6-bit-sample detection right after a 20000-bit-sample one that ran dry (small buffers first, large ones next), and the reverse
+		cases = append(cases, c14Case{Workflow: "poweron", Tile: "5a", TileKind: "constant", Prior: 2499, PriorWF: "period"},
+			c14Case{Workflow: "poweron", Tile: "00ff", TileKind: "alternating", Prior: 30000, PriorWF: "period+fast", Both: true},
+			c14Case{Workflow: "period", Tile: "c3", TileKind: "constant", Prior: 30000, PriorWF: "poweron", Both: true},
+			c14Case{Workflow: "period", Tile: "0f", TileKind: "constant", Prior: 1, PriorWF: "factory+fast", Both: true})
 		// 64-byte tiles with a single set bit: at bit positions = 3 mod 4 a block 0^499 1 reaches the m=500
 		// linear-complexity test (the shape that crashed the pinned tree, D1); one position of each residue
 		for _, bit := range []int{3, 0, 509, 254} {
@@ -213,11 +218,6 @@ func TestC14Enum(t *testing.T) {
 			tile[bit/8] = 0x80 >> uint(bit%8)
 			cases = append(cases, c14Case{Workflow: "poweron", Tile: hex.EncodeToString(tile), TileKind: "sparse", Both: bit == 3})
 		}
-		// a 10^6-bit-sample detection right after a 20000-bit-sample one that ran dry (small buffers first, large ones next), and the reverse
-		cases = append(cases, c14Case{Workflow: "poweron", Tile: "5a", TileKind: "constant", Prior: 2499, PriorWF: "period"},
-			c14Case{Workflow: "poweron", Tile: "00ff", TileKind: "alternating", Prior: 30000, PriorWF: "period+fast", Both: true},
-			c14Case{Workflow: "period", Tile: "c3", TileKind: "constant", Prior: 30000, PriorWF: "poweron", Both: true},
-			c14Case{Workflow: "period", Tile: "0f", TileKind: "constant", Prior: 1, PriorWF: "factory+fast", Both: true})
 		part, parts := envInt("VERIF_PART", 0), envInt("VERIF_PARTS", 1)
 		var mine []c14Case
 		for i, c := range cases {
